@@ -6,7 +6,13 @@ measured `MatchSet` into `MC_Router_data.tla`, `TestC01` replays). Quick: all ta
 methods under default/all-on configs and default/custom context (1.0 M states, 411 k scenarios replayed, 40 s); thorough: 3 registrations over a
 sub-pool. `RouterIndex.tla` (the refinement model of the 3-byte index) was **not** built: the two index defects it was meant to expose were
 re-found by the forward replay itself and are fixed (`d91bf3b`, `46a663b`); the index is now covered only through `Router`'s observable
-behaviour. A run-away guard in the driver turns "a handler ran more than 50 times" into an observation instead of a hung driver (the
+behaviour. The thorough tier's 3-registration run was the first to let TLC find a violation **on the specification itself**:
+`RanOnce` / `RanInRegistrationOrder` failed for `Use(/a); Post(/); Use(/a, override->POST)` + `PUT /a`, because the first version of the spec
+copied the code's per-method-stack merging of duplicate registrations. The spec was rewritten to say what the statement says (the rest of the
+chain after an override = later-registered registrations of the current method's stack; only *consecutive* duplicate registrations form one
+route), the replay then showed 2 076 of 984 600 three-route scenarios differing on the real router (a trailing `Use` never run after a method
+override, or the overriding middleware run twice), and `6bd4617` repairs it (merge only consecutive registrations, so that all method stacks
+group alike). Quick 40-75 s, thorough ~8 min (3.5 M scenarios). A run-away guard in the driver turns "a handler ran more than 50 times" into an observation instead of a hung driver (the
 double-execution defect looped under one table)."""
 ASBUILT["C02"] = """**As built (C02 and C03 share `vlib/c02.py`).** `spec/PathMatch.tla` (reference relations `AllMay`/`AllMust`, `WellFormed`, `Delimited`, `NoExtra`,
 `RestDroppable`), `PathMatch_Gen.tla` (+ pools small/mid/full, `ExtraPats`, the C03 lemma as an invariant), `harness/c02_test.go`. Quick: 467 k
@@ -43,7 +49,7 @@ False alarms corrected: `GET /o k HTTP/1.1` may be answered 404 (RFC 9112 3 allo
 strict parser rejects only CR, LF, NUL in values, not every control byte."""
 ASBUILT["C08"] = """**As built.** `spec/ErrorHandler.tla` + `MC_ErrorHandler.tla/.cfg` (`Configure`, `Raise`, `Deliver`; `ExactlyOnce`, `ChosenIsScoped`, `ChosenIsInnermost`),
 `harness/c08_test.go`: forests of <= 3 mounted apps over 7 confusable prefixes, every scenario run repeatedly on apps mounted parent-first and
-child-first. 387 k states, 191 k scenarios, 45-80 s. Fixed: `b918f62`."""
+child-first, with the error raised by root middleware before the mounts, after them, or by a handler inside the mounted apps. 387 k states, 191 k scenarios, 45-80 s. Fixed: `b918f62`."""
 ASBUILT["C09"] = """**As built.** `spec/Negotiation.tla` (`Pick`, `FormatOutcome`, `ZeroNeverSelects`, `AbsentSelectsFirst`), `harness/c09_test.go` (4 spellings per abstract
 header; `Accepts` twice on a pooled context, `Format`). `AcceptsCharsets/Encodings/Languages` are not enumerated separately (same selection code
 path; their hostile-input totality is exercised under C07). False alarms corrected: `Format`'s 406 is a status, not an error; with an absent
@@ -74,7 +80,9 @@ ASBUILT["C14"] = """**As built.** `spec/Cache.tla`, `MC_Cache.tla` + cfgs (`Fetc
 `Cache_Trace.tla`, `harness/c14_test.go`. Schedule exploration is chunked and **resumable across processes** (`exploreFrom` with a schedule
 prefix) because the cache's refresher goroutines make one process slower with every execution. `NoStuck` is an invariant (a request that can
 never finish) instead of TLC's deadlock check; `Tick` is enabled only while the mutex is free. After an eviction tie among equally old
-entries a history is no longer compared (`amb` flag). Fixed: `a67f42a`, `bd72493`. The seeded change C14B is neutralised by `bd72493`."""
+entries a history is no longer compared (`amb` flag). The origin's headers are functions of its body (content type, content encoding, a custom
+and a repeated custom header), so every served response is checked against the body the specification prescribes; histories are replayed with
+and without `StoreResponseHeaders`. Fixed: `a67f42a`, `bd72493`, `ce6213b` (a repeated origin header was replayed with its last value only). The seeded change C14B is neutralised by `bd72493`."""
 ASBUILT["C15"] = """**As built.** `spec/Session.tla` (mode `middleware` / `store`), `harness/c15_test.go`, simulated histories replayed under the virtual clock for cookie /
 header / query sources on memory and external storage with a counting `KeyGenerator`. Sequential only: the concurrent same-id exploration
 was not built."""
@@ -82,10 +90,13 @@ ASBUILT["C16"] = """**As built.** `spec/Csrf.tla` (+ `Csrf_Hist.cfg.tmpl`; `Sess
 Fixed: `7171d2e` (Referer compared as an origin). False alarm corrected: a DELETE route that sits behind the middleware is an unsafe request
 like any other; the first model treated the harness's own "delete token" route as safe."""
 ASBUILT["C17"] = """**As built.** `spec/Idempotency.tla`, `MemoryLock.tla`, `Idempotency_Trace.tla` + cfgs (incl. a non-excluding Locker that must violate `AtMostOnce`),
-`harness/c17_test.go` (`gatedLocker` logging around the real `MemoryLock`). No defect found; the suspicion about `MemoryLock` deleting entries
+`harness/c17_test.go` (`gatedLocker` logging around the real `MemoryLock`). Requests without a key or with a safe method are the action `Bypass`
+(invariant `BypassUnaffected`; in a trace any storage or lock event of such a request is not enabled); 9 scenarios. No defect found; the suspicion about `MemoryLock` deleting entries
 while others wait is refuted at design level and the code's traces conform."""
 ASBUILT["C18"] = """**As built.** `ClientAssemble.tla`, `ClientCore.tla` (+ `MC_ClientCore.cfg`, `_orig.cfg` with `Compete = FALSE`, must violate `WriteOwn`), `CookieJar.tla`
-(+ `Hist.cfg`, `Hist_root.cfg`); drivers `c18asm_test.go`, `c18core_test.go` (uses the two verif gates of section 5), `c18jar_test.go`. Fixed:
+(+ `Hist.cfg`, `Hist_root.cfg`), `ClientBody.tla` (setter calls `AddForm / AddFile / SetRaw / SetJSON` in program order, the "files win over form
+fields" rule, what arrives per key / per file); drivers `c18asm_test.go`, `c18body_test.go`, `c18core_test.go` (uses the two verif gates of section 5),
+`c18jar_test.go`. Fixed:
 `def2740`, `335f592`, `fa3377b` (jar), `fbc241a` (hand-off), `fd7a868` (path parameter escaping). Open finding `C18-jar-path-direction`: the
 repository's own `Test_CookieJarGet` asserts the reversed path test. Harness errors corrected: a double `resp.Close()` put one Response
 into the pool twice; the identity of a pooled `*Request` is unreliable, so requests are mapped through the goroutine id at the second hook."""
